@@ -93,7 +93,13 @@ def opt_fns(ctx, r):
     if items is None:
         r.missing("optimize_bytecode.rs")
         return None
-    return {f["name"]: f for f in q.find_fns(items)}
+    # local closures (`let mut emit = |instr| ret.push(Line::Instr { instr, .. })`) are expanded at their call sites
+    from lib.inline import materialize
+
+    key = ("opt_fns", id(items))
+    if key not in ctx._abra:
+        ctx._abra[key] = {f["name"]: materialize(f) for f in q.find_fns(items)}
+    return ctx._abra[key]
 
 
 def asm_enum(ctx, r):
@@ -121,6 +127,9 @@ def asm_total(ctx, r):
     if f is None:
         r.missing("instr_to_vminstr", ASM)
         return
+    from lib.inline import materialize
+
+    f = materialize(f)  # closures such as `let int_imm = |imm| constants.int_constants.try_get_id(imm).unwrap() as u16` expanded in place
     enum = asm_enum(ctx, r) or {}
     ms = [m for m in q.walk(f["body"]) if m["k"] == "Match"]
     if not ms:
